@@ -896,13 +896,13 @@ func runC01(c *core.Ctx) error {
 	go func() {
 		defer mwg.Done()
 		_, err := c.TLC(core.TLCOpts{Spec: "BitVecMC", CfgName: "bitvec-vs-integers", Cfg: fmt.Sprintf(c01BitVecCfg, "TRUE"),
-			Workers: tlcWorkers, Timeout: 8 * time.Minute})
+			Workers: tlcWorkers, Timeout: 40 * time.Minute})
 		setErr(err)
 	}()
 	go func() {
 		defer mwg.Done()
 		_, err := c.TLC(core.TLCOpts{Spec: "Expr", CfgName: "shortcuts-m", Cfg: c01Cfg("m", 1, 0, true, "TypeOK ShortcutsOK FloatSmallOK"),
-			Workers: 3, Timeout: 8 * time.Minute})
+			Workers: 3, Timeout: 40 * time.Minute})
 		setErr(err)
 	}()
 	// (R) seeded random operands, every combo once per trace
@@ -911,12 +911,12 @@ func runC01(c *core.Ctx) error {
 		defer mwg.Done()
 		_, err := c.TLC(core.TLCOpts{Spec: "Expr", CfgName: "cells-sim", Cfg: c01Cfg("sim", level, 0, true, "TypeOK Emit"),
 			Simulate: true, SimNum: c.Pick(1, 3), SimDepth: 12 + 64 + 2, Seed: c.Seed, Workers: c.Pick(2, 4),
-			Timeout: 8 * time.Minute, OnLine: feed})
+			Timeout: 40 * time.Minute, OnLine: feed})
 		setErr(err)
 	}()
 	// (R) bounded-exhaustive enumeration by cell
 	_, err := c.TLC(core.TLCOpts{Spec: "Expr", CfgName: "cells-bfs", Cfg: c01Cfg("bfs", level, c.Seed%8, true, "TypeOK Emit"),
-		Workers: tlcWorkers, Timeout: 12 * time.Minute, OnLine: feed})
+		Workers: tlcWorkers, Timeout: 40 * time.Minute, OnLine: feed})
 	setErr(err)
 	mwg.Wait()
 	close(recs)
